@@ -183,15 +183,17 @@ type c03Case struct {
 	MaxRetry  int    `json:"max_retry"`
 	Seeds     int    `json:"seeds"`
 	Assets    int    `json:"assets"`
-	Links     int    `json:"links"` // outlinks per page; > 0 implies --max-hops 1
+	Links     int    `json:"links"`           // outlinks per page; > 0 implies --max-hops 1
 	After     string `json:"after,omitempty"` // what the stalled request gets after the stop: "" | 429 | drop
-	Moment    string `json:"moment"` // arrival | midbody | complete | idle | hook | paused
-	K         int    `json:"k"`      // request number / hit number
+	Moment    string `json:"moment"`          // arrival | midbody | complete | idle | hook | paused
+	K         int    `json:"k"`               // request number / hit number
 	Point     string `json:"point,omitempty"`
+	HoldMs    int    `json:"hold_ms,omitempty"`  // hook moment: the goroutine that raised the event stays busy this long after the SIGTERM
+	DelayMs   int    `json:"delay_ms,omitempty"` // the origin delays every answer (seeds stay in flight while the queue is written)
 }
 
 var c03Points = []string{"preprocessor.received", "archiver.received", "postprocessor.received", "postprocessor.outlinks", "finisher.received", "preprocessor.forward", "archiver.beforeDo", "archiver.afterFeedback", "archiver.forward", "postprocessor.forward",
-	"finisher.feedback", "finisher.beforeMarkFinished", "finisher.afterMarkFinished", "finisher.afterNotify", "lq.get.committed", "lq.finisher.beforeDelete"}
+	"finisher.feedback", "finisher.beforeMarkFinished", "finisher.afterMarkFinished", "finisher.afterNotify", "lq.get.committed", "lq.finisher.beforeDelete", "lq.producer.beforeAdd", "lq.producer.afterAdd"}
 
 func genC03(t *rapid.T) c03Case {
 	c := c03Case{
@@ -223,6 +225,12 @@ func genC03(t *rapid.T) c03Case {
 	if c.Moment == "hook" || c.Moment == "paused" {
 		c.Point = c03Points[rapid.IntRange(0, len(c03Points)-1).Draw(t, "point")]
 		c.K = rapid.IntRange(1, 3).Draw(t, "hookn")
+	}
+	if c.Moment == "hook" && rapid.IntRange(0, 2).Draw(t, "hold") == 0 {
+		c.HoldMs = []int{300, 1500, 3000}[rapid.IntRange(0, 2).Draw(t, "holdms")]
+	}
+	if rapid.IntRange(0, 3).Draw(t, "slow") == 0 {
+		c.DelayMs = []int{100, 400}[rapid.IntRange(0, 1).Draw(t, "delayms")]
 	}
 	return c
 }
@@ -278,6 +286,7 @@ func runC03(t veriflib.TB, c c03Case) (res c03Result) {
 	}
 	o.Links = c.Links
 	o.AfterStall = c.After
+	o.Delay = time.Duration(c.DelayMs) * time.Millisecond
 	defer o.Close()
 	var px *Socks5
 	proxyURL := ""
@@ -293,7 +302,11 @@ func runC03(t veriflib.TB, c c03Case) (res c03Result) {
 	case "arrival", "midbody", "complete":
 		o.StallK, o.StallPhase = c.K, c.Moment
 	case "hook":
-		env = append(env, fmt.Sprintf("VERIFHOOK=%s@%d=term", c.Point, c.K))
+		rule := fmt.Sprintf("VERIFHOOK=%s@%d=term", c.Point, c.K)
+		if c.HoldMs > 0 {
+			rule += fmt.Sprintf(";%s@%d=sleep:%d", c.Point, c.K, c.HoldMs)
+		}
+		env = append(env, rule)
 	case "paused":
 		env = append(env, fmt.Sprintf("VERIF_CHILD_PAUSE=%s@%d", c.Point, c.K))
 	}
@@ -453,7 +466,7 @@ func propC03(t veriflib.TB, c c03Case) {
 		veriflib.Fail(t, "C03", "C03/proc", c, res, "%s", res.Viol)
 	}
 	cl := []string{"moment:" + c.Moment, fmt.Sprintf("workers:%d", c.Workers), fmt.Sprintf("pool:%d", c.Pool), fmt.Sprintf("proxy:%v", c.Proxy),
-		fmt.Sprintf("async:%v", c.Async), fmt.Sprintf("ratelimit:%v", c.RateLimit), fmt.Sprintf("seencheck:%v", c.Seencheck), fmt.Sprintf("maxretry:%d", c.MaxRetry), fmt.Sprintf("links:%d", c.Links), "after:" + c.After}
+		fmt.Sprintf("async:%v", c.Async), fmt.Sprintf("ratelimit:%v", c.RateLimit), fmt.Sprintf("seencheck:%v", c.Seencheck), fmt.Sprintf("maxretry:%d", c.MaxRetry), fmt.Sprintf("links:%d", c.Links), "after:" + c.After, fmt.Sprintf("hold:%v", c.HoldMs > 0), fmt.Sprintf("slow-site:%v", c.DelayMs > 0)}
 	if c.Point != "" {
 		cl = append(cl, "point:"+c.Point)
 	}
@@ -476,7 +489,12 @@ func TestVerif_C03_Proc(t *testing.T) {
 	{
 		i := veriflib.ShardIndex()
 		d := c03Case{Workers: []int{1, 3}[i%2], Pool: 1 + i%2, Seencheck: true, MaxRetry: i % 2, Seeds: 2 + i%3, Assets: 1 + i%2, Async: i%5 == 4, RateLimit: i%3 == 0, Proxy: i%6 == 5}
-		switch i % 5 {
+		switch i % 6 {
+		case 5:
+			// stop while the local queue's producer is about to write a batch of outlinks and seeds are still in flight
+			// (slow site): the writer sees its context cancelled in the middle of its transaction
+			d.Workers, d.Seeds, d.Assets, d.Links, d.DelayMs = 1, 6, 2, 3, 400
+			d.Moment, d.Point, d.K, d.HoldMs = "hook", "lq.producer.beforeAdd", 1, 3000
 		case 4:
 			// stop while an outlink page is being fetched: more outlinks wait in the local queue than there are tokens
 			d.Seeds, d.Links, d.Moment, d.K = 1, 12, "arrival", 1+d.Assets+2+i%3
